@@ -457,6 +457,14 @@ func (e *Exec) backEdge(fr *frame, st *State, li *loopInfo, c *Contract, variant
 	clauses := e.loopClauses(c, li)
 	entry := fr.entryState
 	where := fmt.Sprintf("loop %d of %s", li.ord, fr.fn.Name())
+	if fr.curBlock != nil {
+		for i := len(fr.curBlock.Instrs) - 1; i >= 0; i-- {
+			if p := fr.curBlock.Instrs[i].Pos(); p.IsValid() {
+				where += " (back edge from " + e.pos(p) + ")"
+				break
+			}
+		}
+	}
 	if !e.topStar && e.entry != nil && e.spec == 0 {
 		ms := e.loopMods(fr, li)
 		for _, k := range sortedKeys(ms.comps) {
